@@ -401,7 +401,7 @@ GAPS = [1, 2, 3, 5, 8, 1, 2, 30, 49]      # hours; some gaps are longer than a d
 
 
 def gen_events(tape, n_cons, n_events, *, strictly_increasing=None, out_of_range=True, halves=True,
-               first_push=True, future_chance=(1, 12), refused_future_keeps_last=False):
+               first_push=True, future_chance=(1, 12), refused_future_keeps_last=False, burst=None):
     """interleaving of pushes (increasing times) and per-consumer pulls (non-decreasing times)"""
     strictly_increasing = strictly_increasing or [False] * n_cons
     events = []
@@ -412,7 +412,16 @@ def gen_events(tape, n_cons, n_events, *, strictly_increasing=None, out_of_range
     if first_push:
         events.append(["PUSH", 0, val])
         pubs.append(0)
-    for _ in range(n_events):
+    after_burst = set()
+    for ei in range(n_events):
+        if burst and ei == burst[0]:
+            # the producer runs far ahead: a long row of publications without any request in between
+            for _ in range(burst[1]):
+                tpush = tpush + tape.choice(GAPS)
+                val = val + tape.choice([1, 3, -2, 10, 0.5, 0])
+                events.append(["PUSH", tpush, val])
+                pubs.append(tpush)
+            after_burst = set(range(n_cons))
         if tape.chance(9, 20) or not pubs:
             if pubs:
                 tpush = tpush + tape.choice(GAPS)
@@ -428,6 +437,10 @@ def gen_events(tape, n_cons, n_events, *, strictly_increasing=None, out_of_range
                     events.append(["PULL", ci, pubs[0] - tape.choice([1, 2])])
                     continue
             mode = tape.weighted([("step", 6), ("same", 2), ("newest", 3), ("mid", 3), ("pub", 3), ("future", 1), ("near", 1)])
+            if ci in after_burst:
+                # the first request after the row: the oldest entry again, or a small step into the long buffer
+                after_burst.discard(ci)
+                mode = tape.choice(["same", "step", "step"])
             hi = pubs[-1]
             if mode == "same":
                 t = lo
